@@ -10,5 +10,19 @@ let () =
     if Array.length t = 4 && t.(0) = "I" then begin
       let cb = n_of_int (int_of_string t.(1)) and b = n_of_int (int_of_string t.(2)) and o = n_of_int (int_of_string t.(3)) in
       Printf.printf "%d %d %d %d\n" (int_of_n (l1_of cb b)) (int_of_n (l2_of cb b)) (int_of_n (rc_table_index cb o)) (int_of_n (rc_entry cb o))
+    end else if Array.length t >= 4 && t.(0) = "WR" then begin
+      (* WR <l2 entries per table> <cache capacity> <offset of the first table> <blk:data:next> ...
+         -> "L1 idx:off ..." and one "T off idx:data ..." per table written, the tables in ascending offset order *)
+      let n i = n_of_int (int_of_string i) in
+      let items = List.map (fun x -> match String.split_on_char ':' x with
+          | [b; d; nx] -> ((n b, n d), n nx) | _ -> failwith "bad item") (Array.to_list (Array.sub t 4 (Array.length t - 4))) in
+      let rec nat_of_int i = if i <= 0 then O else S (nat_of_int (i - 1)) in
+      let img = write_all (n t.(1)) (nat_of_int (int_of_string t.(2))) (n t.(3)) items in
+      let pr l = String.concat " " (List.map (fun (a, b) -> Printf.sprintf "%d:%d" (int_of_n a) (int_of_n b)) (List.sort compare (List.map (fun (a, b) -> (int_of_n a, int_of_n b)) l |> List.map (fun (a, b) -> (n_of_int a, n_of_int b))))) in
+      let srt l = List.sort (fun (a, _) (b, _) -> compare (int_of_n a) (int_of_n b)) l in
+      Printf.printf "L1 %s\n" (String.concat " " (List.map (fun (a, b) -> Printf.sprintf "%d:%d" (int_of_n a) (int_of_n b)) (srt img.w_l1)));
+      List.iter (fun (off, d) -> Printf.printf "T %d %s\n" (int_of_n off) (String.concat " " (List.map (fun (a, b) -> Printf.sprintf "%d:%d" (int_of_n a) (int_of_n b)) (srt d)))) (srt img.w_file);
+      ignore pr;
+      print_endline "END"
     end else print_endline "?"
   done with End_of_file -> ()
